@@ -39,6 +39,9 @@ def _work(item):
             res, tree = G.explore_and_validate(mol, g, max_nodes=params.get("max_nodes", 3000),
                                                max_seconds=params.get("max_seconds", 25), qgrid=params.get("qgrid"),
                                                tag="tree")
+        elif mode == "stage":
+            res, tree = G.explore_and_validate(mol, g, max_nodes=params.get("max_nodes", 3000),
+                                               max_seconds=params.get("max_seconds", 25), tag="stage", call=G.stagewise)
         elif mode == "random":
             res, tree = G.validate_random_runs(mol, g, params["seeds"], tag="rand")
         else:
@@ -146,6 +149,10 @@ def build_items(prop, tier, rnd):
     if prop == "C05":
         for m in I.chem_instances(tier):
             items.append((m, "tree", big))
+        # the same molecules built element by element through the public API, intermediate results read in between
+        for m in core:
+            if len(m.elems) >= 2 and not m.name.startswith("neg"):
+                items.append((m, "stage", dict(max_nodes=600, max_seconds=10)))
     # recorded random streams on long variants of the hand-written instances
     n_s = 3 if tier == "quick" else 12
     for m in I.core_instances() + I.extra_instances():
